@@ -10,9 +10,9 @@ trap 'git -C /repo worktree remove --force "$WT" >/dev/null 2>&1' EXIT
 cd "$WT"
 SRC=$(ls "$SD"/demo_test.go "$SD"/demo/main.go 2>/dev/null | head -1)
 mkdir -p "$(dirname "$DEMO")"; cp "$SRC" "$DEMO"
-if go test -vet=off -count=1 -run "$RX" "$DPKG" >"$SD/confirm_clean.txt" 2>&1; then echo "demo on clean tree: PASS (expected)"; else echo "demo on clean tree: FAIL (UNEXPECTED)"; tail -5 "$SD/confirm_clean.txt"; fi
+if go test -vet=off -count=1 $DEMOFLAGS -run "$RX" "$DPKG" >"$SD/confirm_clean.txt" 2>&1; then echo "demo on clean tree: PASS (expected)"; else echo "demo on clean tree: FAIL (UNEXPECTED)"; tail -5 "$SD/confirm_clean.txt"; fi
 git apply "$SD/patch.diff" || { echo "patch does not apply"; exit 8; }
-if go test -vet=off -count=1 -run "$RX" "$DPKG" >"$SD/confirm_patched.txt" 2>&1; then echo "demo on patched tree: PASS (UNEXPECTED)"; else echo "demo on patched tree: FAIL (expected)"; fi
+if go test -vet=off -count=1 $DEMOFLAGS -run "$RX" "$DPKG" >"$SD/confirm_patched.txt" 2>&1; then echo "demo on patched tree: PASS (UNEXPECTED)"; else echo "demo on patched tree: FAIL (expected)"; fi
 rm -f "$DEMO"
 if go build ./... >"$SD/confirm_build.txt" 2>&1; then echo "build: ok"; else echo "build: FAILED"; fi
 if go test -vet=off -count=1 $TPK >"$SD/confirm_tests.txt" 2>&1; then echo "existing tests ($TPK): ok"; else echo "existing tests: FAILED"; grep -v '^ok' "$SD/confirm_tests.txt" | tail -5; fi
